@@ -40,23 +40,34 @@ func (cache *dirCache) Store(target *core.BuildTarget, key []byte, files []strin
 		log.Warning("Failed to remove existing cache directory %s: %s", cacheDir, err)
 		return
 	}
-	cache.storeFiles(target, key, "", cacheDir, tmpDir, files, true)
+	if !cache.storeFiles(target, key, "", cacheDir, tmpDir, files, true) {
+		// Don't publish an entry that is missing files; a later retrieve would restore a partial tree.
+		if err := fs.RemoveAll(tmpDir); err != nil {
+			log.Warning("Failed to remove incomplete cache directory %s: %s", tmpDir, err)
+		}
+		return
+	}
 	if err := os.Rename(tmpDir, cacheDir); err != nil && !os.IsNotExist(err) {
 		log.Warning("Failed to create cache directory %s: %s", cacheDir, err)
 	}
 }
 
 // storeFiles stores the given files in the cache, either compressed or not.
-func (cache *dirCache) storeFiles(target *core.BuildTarget, key []byte, suffix, cacheDir, tmpDir string, files []string, clean bool) {
+// It returns false if any of them could not be stored.
+func (cache *dirCache) storeFiles(target *core.BuildTarget, key []byte, suffix, cacheDir, tmpDir string, files []string, clean bool) bool {
 	var totalSize uint64
+	ok := true
 	if cache.Compress {
 		totalSize = cache.storeCompressed(target, tmpDir, files)
 	} else {
 		for _, out := range files {
-			totalSize += cache.storeFile(target, out, tmpDir)
+			size, stored := cache.storeFile(target, out, tmpDir)
+			totalSize += size
+			ok = ok && stored
 		}
 	}
 	cache.markDir(cacheDir, totalSize)
+	return ok
 }
 
 // storeCompressed stores all the given files in the cache as a single compressed tarball.
@@ -159,22 +170,23 @@ func (cache *dirCache) ensureStoreReady(filename string) error {
 	return nil
 }
 
-func (cache *dirCache) storeFile(target *core.BuildTarget, out, cacheDir string) uint64 {
+func (cache *dirCache) storeFile(target *core.BuildTarget, out, cacheDir string) (uint64, bool) {
 	log.Debug("Storing %s: %s in dir cache...", target.Label, out)
 	outFile := filepath.Join(core.RepoRoot, target.OutDir(), out)
 	cachedFile := filepath.Join(cacheDir, out)
 	if err := cache.ensureStoreReady(cachedFile); err != nil {
 		log.Warning("Failed to setup cache directory: %s", err)
-		return 0
+		return 0, false
 	}
 	if err := fs.RecursiveLink(outFile, cachedFile); err != nil {
 		// Cannot hardlink files into the cache, must copy them for reals.
 		log.Warning("Failed to store cache file %s: %s", cachedFile, err)
+		return 0, false
 	}
 	// TODO(peterebden): This is a little inefficient, it would be better to track the size in
 	//                   RecursiveCopy rather than walking again.
 	size, _ := findSize(cachedFile)
-	return size
+	return size, true
 }
 
 func (cache *dirCache) Retrieve(target *core.BuildTarget, key []byte, outs []string) bool {
